@@ -1,9 +1,9 @@
 CONSTANTS
   Nets <- MCNetsTri
   Durations <- MCDurLong
-  Cycle = 5
-  Timeout = 10
+  Configs <- MCCfgDefault
   CheckPeriod = 5
+  SendsPerSec = 15
   Slack = 1
   D = 0
 INIT Init
@@ -22,4 +22,7 @@ INVARIANT ExactlyOnce
 PROPERTY Announced
 PROPERTY SilentWires
 PROPERTY NeverDropsLive
+PROPERTY NoSpuriousWithdrawal
+PROPERTY ConfigConstant
+INVARIANT HoldDownEnds
 CHECK_DEADLOCK FALSE
